@@ -14,7 +14,7 @@ PROP = {
     # 17 per 10k renderings are truncated on the pinned tree (measured); renderings that are truncated
     # are outside the property ("within the renderer's size limits") and skipped, so a regression
     # that truncates more must not hide behind the skip
-    "max_clause_per_10k": {"skipped:truncated": ("rendered", 25, "C17:truncated-share-exceeds-calibrated-bound")},
+    "max_clause_per_10k": {"skipped:truncated": ("rendered", 25, "C17:truncated-share-exceeds-calibrated-bound", 120)},  # quick bound 25 as calibrated on the pinned tree over seeds 1-5; the thorough tier generates deeper types (50 per 10k on the pinned tree), its bound is 120
     "require_clauses": ["a:structural-roundtrip", "b:rerender-equal", "rendered", "skipped:truncated", "family:string-literal", "family:array-of-union", "family:record"],
     "assumptions": COMMON_ASSUME + [
         "'same type' = equal canonical forms of the two LuaType values (union members as a set, record fields by key, annotation literals and inferred literals identified)",
